@@ -70,6 +70,7 @@ func cmdList(args []string) {
 func cmdDump(args []string) {
 	fs := flag.NewFlagSet("dump", flag.ExitOnError)
 	name := fs.String("obl", "", "obligation name (substring)")
+	full := fs.Bool("full", false, "no cone-of-influence slicing")
 	repo := fs.String("repo", flagRepo, "repository")
 	fs.Parse(args)
 	p := setup(*repo)
@@ -80,7 +81,11 @@ func cmdDump(args []string) {
 			if o.Ex != nil && len(o.Ex.replayInputs) > 0 {
 				gv = o.Ex.replayTerms(o)
 			}
-			fmt.Printf("; ---- %s\n%s\n", o.Name, o.Script.Render(o.N, o.Hyp, o.Goal, gv))
+			if *full {
+				fmt.Printf("; ---- %s\n%s\n", o.Name, o.Script.RenderFull(o.N, o.Hyp, o.Goal, gv))
+			} else {
+				fmt.Printf("; ---- %s\n%s\n", o.Name, o.Script.Render(o.N, o.Hyp, o.Goal, gv))
+			}
 		}
 	}
 }
